@@ -26,9 +26,11 @@ class C09(Check):
               "result containers take their index/keys from the scan table in row order",
         "P3": "the parallel consumer appends exactly one result per input or fails; the only dropping path (TimeoutError) is unreachable "
               "because no scan API passes a timeout",
+        "P5": "row start state: the worker bound for the rows receives y0=None - a row's initial values are applied to its model copy by the row wrapper, "
+              "and a fixed y0 handed to the Simulator would replace them",
         "P4": "failure channel: every worker returns through Result.default(<NaN Simulation of the right time points>)",
     }
-    floors = {"P1": 1, "P1b": 9, "P2": 6, "P3": 2, "P4": 4}
+    floors = {"P1": 1, "P1b": 9, "P2": 6, "P3": 2, "P4": 4, "P5": 8}
     decided = [
         "no row's (lazily evaluated) fluxes/variables can see another row's parameter values in sequential mode",
         "results are positionally aligned with the scan table in both execution modes",
@@ -77,6 +79,25 @@ class C09(Check):
                 self.violated("P1b", rel, name, "routes-through-wrapper", c,
                               "rows are not applied through the isolating row wrapper over the table's rows in order",
                               witness="rows are simulated with the caller's unmodified model / in another order")
+            # P5: the start state of a row is the row's own (applied to the copy by the wrapper): the worker gets no fixed y0
+            inner = {k.arg: k.value for k in first.keywords}.get("fn") if isinstance(first, ast.Call) else None
+            if inner is not None:
+                from ..core import expand_locals, single_defs
+
+                inner = expand_locals(inner, single_defs(fn, anywhere=True), depth=3)
+                y0s = []
+                if isinstance(inner, ast.Call) and dotted(inner.func) == "partial":
+                    y0s = [k.value for k in inner.keywords if k.arg == "y0"]
+                elif isinstance(inner, ast.Lambda):
+                    y0s = [k.value for x in ast.walk(inner.body) if isinstance(x, ast.Call) for k in x.keywords if k.arg == "y0"]
+                if y0s:
+                    v = y0s[0]
+                    if isinstance(v, ast.Constant) and v.value is None:
+                        self.holds("P5", rel, name, "row-start-state", v, "the worker is bound with y0=None: it starts from the row's model copy")
+                    else:
+                        self.violated("P5", rel, name, "row-start-state", v, f"the worker is bound with y0=`{norm(v)[:50]}`, one start state for all rows: the Simulator uses it instead of the "
+                                      "initial values the row wrapper has just written into the row's model copy, and parameters computed from initial values never see it",
+                                      witness="scan.steady_state(model, to_scan=DataFrame({'x': [1, 2, 3]}), y0={'y': 0.5}) simulates all three rows from the same x")
             if "timeout" in kw:
                 self.violated("P3", rel, name, "timeout-drops-rows", c, "a timeout is passed to parallelise: a row that times out is silently dropped and later rows shift up")
         self.p2(par, scan, mc, entries)
